@@ -26,7 +26,21 @@ EITHER zones (left open by the docs, therefore not asserted):
     (genotype changes; witness in drop_detached_mutations).  Reported as a finding; such mutations are removed
     from the extend workload and counted under either:extend-detached-mutations-dropped;
   * extend_haplotypes: a mutation whose time equals the time of an inserted node may sit on either side of it;
-  * which exception class reports a refused argument (LibraryError / ValueError / TypeError family).
+  * which exception class reports a refused argument (LibraryError / ValueError / TypeError / OverflowError
+    family); a refused in-place call must leave the tables as they were;
+  * trim family with migrations outside the span of the edges: only a refusal is tolerated; when the call
+    returns, every row is compared as usual and only the validity of the result is not asserted;
+  * split_edges / decapitate on a node table with a JSON schema: the new nodes' metadata is compared as the decoded
+    JSON value (any spelling; an empty byte string reads as {}), with a struct schema byte for byte.
+
+Audit additions (lib/props/AUDIT-C11.md): every call is drawn over argument forms (interval / site-id containers and
+dtypes, keyword / positional / omitted-default call styles, numeric types of times, flags, populations, max_iter) and
+over object sources (fresh, indexed, copy(), dump_tables(), file round trip, pickle, an object that already went
+through another in-place operation); exact-boundary intervals and cut-offs (next double below / above a site
+position, an edge end, a node or mutation time; -0.0); metadata schemas on tables and top level, reference sequence,
+one whole ragged column empty; unsorted tables for delete_older / delete_sites; large instances (>= 256 children,
+ragged columns > 64 KiB, one row > 32 KiB, >= 64 intervals, site ids > 255); indexes left in place by an in-place
+operation must still describe the rows.
 """
 import math
 
@@ -36,11 +50,31 @@ import tskit
 from lib import gen
 from lib.harness import case_rng
 from lib.model import NODE_IS_SAMPLE, NULL, RowModel, allele_at, forest, mutation_parents
+from lib.props import c11_ext as X
 from lib.props.c04 import expected_mutation_node, expected_parent_map
-from lib.tsk import from_tables, to_tables, to_ts
+from lib.props.c11_ext import FRESH, Source
+from lib.props.c11_ext import from_tables  # lib.tsk.from_tables, each column fetched once
+from lib.props.c11_ext import tables_of as to_tables  # lib.tsk.to_tables + schemas attached after the rows
 
 ID = "C11"
 LIBERR = (tskit.LibraryError, ValueError)
+# refusal of an argument outside the documented domain may surface as any of these (numpy casting, C int parsing)
+REFUSAL = (tskit.LibraryError, ValueError, TypeError, OverflowError)
+
+
+class OpError(ValueError):
+    """An exception outside the documented refusal family (LibraryError / ValueError) that escaped from the tskit
+    call itself (IndexError, TypeError, OverflowError, AssertionError ...).  Being a ValueError it is handled where a
+    valid call is not allowed to raise at all; the EITHER zones that tolerate a refusal do not tolerate it."""
+
+
+def call(obj, name, *args, **kwargs):
+    try:
+        return getattr(obj, name)(*args, **kwargs)
+    except LIBERR:
+        raise
+    except Exception as e:  # noqa: BLE001 - only the call into tskit is wrapped
+        raise OpError(f"{type(e).__name__}: {e}") from e
 
 COLS = {
     "nodes": ("flags", "time", "population", "individual", "metadata"),
@@ -60,8 +94,16 @@ DEFAULT_OPTS = {"unary": "none", "keep_input_roots": False}
 def cases(tier, seed):
     n = 30000 if tier == "quick" else 3000000
     yield {"gen": "witness-extend-detached", "k": -1}  # the recorded known finding, always exercised
+    yield {"gen": "big", "k": -2}  # at least one large instance even on a loaded machine
     for k in range(n):
-        yield {"gen": "arg-extend" if k % 8 == 5 else "walk", "k": k}
+        if k % 8 == 5:
+            yield {"gen": "arg-extend", "k": k}
+        elif k % 8 == 1:
+            yield {"gen": "extend-motif", "k": k}
+        elif k % 60 == 19:
+            yield {"gen": "big", "k": k}
+        else:
+            yield {"gen": "walk", "k": k}
 
 
 # ------------------------------------------------------------------------------- inputs
@@ -88,7 +130,14 @@ def build(rng):
     if rng.random() < 0.2:
         m.metadata = b"top\x00"
         m.time_units = "ticks"
-    return m
+    # audit additions: one whole ragged column empty; metadata schemas on tables / top level; reference sequence
+    if rng.random() < 0.15:
+        X.blank_column(rng, m)
+    if rng.random() < 0.22:
+        X.decorate_schemas(rng, m)
+    if rng.random() < 0.2:
+        X.decorate_refseq(rng, m)
+    return X.normalise(m)
 
 
 # ------------------------------------------------------------------------------- comparison helpers
@@ -186,9 +235,15 @@ def mutation_time(m, k):
 def check_top_and_prov(ctx, bad, op, mi, mo, added):
     """Top-level attributes untouched; provenance grows by exactly `added` rows (None: 0 or 1)."""
     ctx.count("top-level")
-    for attr in ("metadata", "time_units", "refseq"):
+    for attr in ("metadata", "time_units", "refseq", "metadata_schema"):
         if getattr(mo, attr) != getattr(mi, attr):
             bad(f"{op}/top-level-{attr}", f"{attr} {getattr(mo, attr)!r} expected {getattr(mi, attr)!r}")
+    if mi.schemas or mo.schemas:
+        ctx.count("table-schemas")
+        for t in COLS:
+            if mo.schemas.get(t, "") != mi.schemas.get(t, ""):
+                bad(f"{op}/{SING[t]}-metadata-schema", f"metadata schema of table {t} is {mo.schemas.get(t, '')!r}, "
+                    f"expected {mi.schemas.get(t, '')!r}")
     n0 = len(mi.provenances)
     ok = mo.provenances[:n0] == mi.provenances and (
         len(mo.provenances) - n0 in ((0, 1) if added is None else (added,)))
@@ -201,32 +256,50 @@ def check_top_and_prov(ctx, bad, op, mi, mo, added):
             bad(f"{op}/provenance-record", f"new provenance record does not name {op}: {rec[:120]}")
 
 
-def run_op(api, mi, name, args, kwargs):
-    """Apply the operation through the chosen API; returns the output RowModel (and the tskit tables)."""
-    tc = to_tables(mi)
+def run_op(api, mi, name, args, kwargs, src=FRESH):
+    """Apply the operation through the chosen API to an object obtained from `src`; returns the output RowModel
+    and the tskit tables."""
     if api == "tables":
-        getattr(tc, name)(*args, **kwargs)
+        tc = src.tables(mi)
+        call(tc, name, *args, **kwargs)
         out = tc
     else:
-        ts = tc.tree_sequence()
-        out = getattr(ts, name)(*args, **kwargs).dump_tables()
+        ts = src.ts(mi)
+        out = call(ts, name, *args, **kwargs).dump_tables()
     return from_tables(out), out
 
 
-def accepts_as_ts(ctx, bad, op, out_tc):
+def accepts_as_ts(ctx, bad, op, out_tc, mo=None):
+    """The result loads as a tree sequence.  When an in-place operation left the indexes of the collection in
+    place, the trees built from those indexes must be the forests of the rows (a stale index is the operation's
+    fault: tree_sequence() only builds indexes that are missing)."""
     ctx.count("validity")
+    kept_index = out_tc.has_index()
     try:
-        out_tc.tree_sequence()
-        return True
+        ts = out_tc.tree_sequence()
     except LIBERR as e:
-        bad(f"{op}/output-invalid", f"result is not accepted by tree_sequence(): {e}")
+        bad(f"{op}/output-invalid", f"result is not accepted by tree_sequence(): {e}"
+            + (" (indexes left in place by the operation)" if kept_index else ""))
         return False
+    if kept_index and mo is not None:
+        ctx.count("index-kept-consistent")
+        for tree in ts.trees():
+            x = tree.interval.left
+            pa = tree.parent_array
+            got = {u: int(pa[u]) for u in range(len(mo.nodes)) if pa[u] != NULL}
+            if got != mo.forest_at(x):
+                bad(f"{op}/stale-index", f"tree at x={x} built from the indexes left in place is {got}, the edge rows "
+                    f"give {mo.forest_at(x)}")
+                break
+    return True
 
 
 # ------------------------------------------------------------------------------- intervals
 
 
 def gen_intervals(rng, m):
+    if _forced_intervals is not None:
+        return _forced_intervals
     L = m.L
     grid = sorted({k * L / 32 for k in range(33)})
     bps = m.breakpoints()
@@ -236,6 +309,11 @@ def gen_intervals(rng, m):
         return [], "empty"
     if r < 0.16:
         return [(0.0, L)], "whole"
+    if r < 0.19:
+        # every edge end and every site position is an interval end
+        pts = sorted(set(bps + spos + [0.0, L]))
+        ivs = [(a, b) for a, b in zip(pts[:-1], pts[1:])]
+        return ([iv for k, iv in enumerate(ivs) if k % 2 == 0], "alternating-all-breakpoints-and-sites")
     if r < 0.30:
         # cut exactly at edge ends and site positions
         pts = sorted(set(rng.sample(sorted(set(bps + spos + [0.0, L])), min(len(set(bps + spos + [0.0, L])),
@@ -244,9 +322,12 @@ def gen_intervals(rng, m):
             pts = pts[:-1]
         ivs = [(pts[i], pts[i + 1]) for i in range(0, len(pts), 2)]
         return ivs, "at-breakpoints-and-sites"
-    if r < 0.42:
+    if r < 0.40:
         a, b, c = sorted(rng.sample(grid, 3))
         return [(a, b), (b, c)], "touching"
+    if r < 0.54:
+        # exact boundary: the double next to a site position / edge end (and -0.0 for 0)
+        return X.boundary_intervals(rng, m)
     k = rng.choice([1, 1, 2, 3])
     pts = sorted(rng.sample(grid, 2 * k))
     ivs = [(pts[i], pts[i + 1]) for i in range(0, 2 * k, 2)]
@@ -271,19 +352,26 @@ def gen_bad_intervals(rng, m):
         ([(0.0, L + 1)], "beyond-L"),
         ([(0.0, L / 4, L / 2)], "wrong-shape"),
         ([0.0, L / 2], "one-dimensional"),
+        # exact boundaries: wrong by one unit in the last place
+        ([(0.0, math.nextafter(L, math.inf))], "beyond-L-by-one-ulp"),
+        ([(-5e-324, L / 2)], "below-zero-by-one-ulp"),
+        ([(0.0, L / 2), (math.nextafter(L / 2, 0.0), L)], "overlapping-by-one-ulp"),
+        ([(L / 4, L / 2), (0.0, L / 4)], "touching-but-unsorted"),
+        ([(L / 2, math.nextafter(L / 2, 0.0))], "reversed-by-one-ulp"),
     ])
 
 
-def check_intervals_op(ctx, mi, rng, op):
+def check_intervals_op(ctx, mi, rng, op, src=None):
     ivs, how = gen_intervals(rng, mi)
     ctx.feature(f"intervals:{how}")
     simplify = rng.random() < 0.35
     recprov = rng.random() < 0.5
     api = rng.choice(["tables", "ts"])
-    arg = ivs
-    if ivs and rng.random() < 0.4:
-        arg = np.array(ivs)
-    what = f"{api}.{op}({ivs}, simplify={simplify}, record_provenance={recprov})"
+    src = src or Source.draw(rng)
+    ctx.feature(src.tag(api))
+    arg, form = X.interval_arg(rng, ivs)
+    ctx.feature(f"intervals-arg:{form}")
+    what = f"{api}.{op}({ivs} as {form}, simplify={simplify}, record_provenance={recprov}) [{src.tag(api)}]"
     detail = {"model": mi.to_json(), "op": op, "intervals": ivs, "simplify": simplify, "api": api}
 
     def bad(key, msg):
@@ -293,14 +381,19 @@ def check_intervals_op(ctx, mi, rng, op):
         hit = any(a <= x < b for a, b in ivs)
         return hit if op == "keep_intervals" else not hit
 
-    # expected simplify=False result
+    # expected simplify=False result; (simplify, record_provenance) by keyword, by position, or left to the
+    # documented defaults (both True) when that is the wanted value
+    prov1 = recprov and not simplify
+    pos, kw, style = X.call_form(rng, [("simplify", False, True), ("record_provenance", prov1, True)])
+    ctx.feature(f"call-style:{style}")
     try:
-        mo, out_tc = run_op(api, mi, op, (arg,), {"simplify": False, "record_provenance": recprov and not simplify})
+        mo, out_tc = run_op(api, mi, op, (arg,) + pos, kw, src)
     except LIBERR as e:
-        bad(f"{op}/raised-on-valid-input", f"raised {type(e).__name__}: {e}")
+        bad(f"{op}/raised-on-valid-input", f"raised {type(e).__name__}: {e} (call style {style})")
         return
     ctx.count(f"{op}:{api}")
-    accepts_as_ts(ctx, bad, op, out_tc)
+    accepts_as_ts(ctx, bad, op, out_tc, mo if api == "tables" else None)
+    what += f" [call style {style}: {pos} {kw}]"
     ok = True
     for t in ("nodes", "individuals", "populations"):
         ok &= same_table(ctx, bad, op, t, mo, getattr(mi, t))
@@ -324,8 +417,18 @@ def check_intervals_op(ctx, mi, rng, op):
         for r in rows:
             pts.update((r[0], r[1]))
     pts = sorted(p for p in pts if 0 <= p <= mi.L)
+    ends = {a for a, _ in ivs} | {b for _, b in ivs}
+    if any(s[0] in {a for a, _ in ivs} for s in mi.sites):
+        ctx.feature("intervals:site-on-left-end")
+    if any(s[0] in {b for _, b in ivs} for s in mi.sites):
+        ctx.feature("intervals:site-on-right-end")
+    if any(e[0] < p < e[1] for e in mi.edges for p in ends):
+        ctx.feature("intervals:edge-cut-inside")
+    if any(g[0] < p < g[1] for g in mi.migrations for p in ends):
+        ctx.feature("intervals:migration-cut-inside")
     for a, b in zip(pts[:-1], pts[1:]):
-        x = (a + b) / 2
+        # every cover is constant on [a, b): probe its left end (the midpoint of two adjacent doubles is not inside)
+        x = a
         keep = inside(x)
         ctx.count("cover:edges")
         ge = edge_cover(mo, x)
@@ -353,10 +456,13 @@ def check_intervals_op(ctx, mi, rng, op):
     # simplify=True: equal to simplify() of the simplify=False result (which was just checked)
     ctx.count(f"{op}:simplify=True")
     refuses = bool(mo.migrations) or any(e[4] != b"" for e in mo.edges)
+    pos, kw, style = X.call_form(rng, [("simplify", True, True), ("record_provenance", recprov, True)])
+    ctx.feature(f"call-style:{style}")
+    what += f" [simplify=True call style {style}: {pos} {kw}]"
     try:
-        ms, _ = run_op(api, mi, op, (arg,), {"simplify": True, "record_provenance": recprov})
+        ms, _ = run_op(api, mi, op, (arg,) + pos, kw, src)
     except LIBERR as e:
-        if refuses:
+        if refuses and not isinstance(e, OpError):
             ctx.count("either:simplify-refused")
         else:
             bad(f"{op}/simplify-raised", f"simplify=True raised {type(e).__name__}: {e}")
@@ -380,8 +486,11 @@ def check_bad_intervals(ctx, mi, rng):
     ivs, how = gen_bad_intervals(rng, mi)
     api = rng.choice(["tables", "ts"])
     ctx.count("refusals")
+    ctx.feature(f"bad-intervals:{how}")
     tc = to_tables(mi)
     before = from_tables(tc)
+    if how not in ("wrong-shape", "one-dimensional") and rng.random() < 0.4:
+        ivs = np.array(ivs)
     try:
         if api == "tables":
             getattr(tc, op)(ivs, simplify=False)
@@ -405,10 +514,12 @@ def check_bad_intervals(ctx, mi, rng):
 # ------------------------------------------------------------------------------- trims
 
 
-def check_trim(ctx, mi, rng, op):
+def check_trim(ctx, mi, rng, op, src=None):
     api = rng.choice(["tables", "ts"])
     recprov = rng.random() < 0.5
-    what = f"{api}.{op}(record_provenance={recprov})"
+    src = src or Source.draw(rng)
+    pos, kw, style = X.call_form(rng, [("record_provenance", recprov, True)])
+    what = f"{api}.{op}(record_provenance={recprov}) [{src.tag(api)}, call style {style}: {pos} {kw}]"
     detail = {"model": mi.to_json(), "op": op, "api": api}
 
     def bad(key, msg):
@@ -417,21 +528,17 @@ def check_trim(ctx, mi, rng, op):
     if not mi.edges:
         ctx.count("refusals")
         try:
-            run_op(api, mi, op, (), {"record_provenance": recprov})
+            run_op(api, mi, op, pos, kw, src)
         except LIBERR:
             return
         bad(f"{op}/no-edges-accepted", "trimming a collection with no edges did not raise")
         return
     lo = min(e[0] for e in mi.edges)
     hi = max(e[1] for e in mi.edges)
-    if any(g[0] < lo or g[1] > hi for g in mi.migrations):
-        # EITHER zone: migrations outside the span of the edges
-        ctx.count("either:trim-migrations-outside")
-        try:
-            run_op(api, mi, op, (), {"record_provenance": recprov})
-        except LIBERR:
-            pass
-        return
+    # EITHER zone: migrations reaching outside the span of the edges may be refused (the docstring of
+    # _check_trim_conditions refuses only some of them).  When the call returns, every row is still fixed by the
+    # documentation (coordinates shifted, nothing else touched); only the validity of the result is not asserted.
+    outside = any(g[0] < lo or g[1] > hi for g in mi.migrations)
     shift = lo if op in ("ltrim", "trim") else 0.0
     newL = hi if op in ("rtrim", "trim") else mi.L
     dead = set()
@@ -441,14 +548,26 @@ def check_trim(ctx, mi, rng, op):
         if op in ("rtrim", "trim") and s[0] >= hi:
             dead.add(j)
     try:
-        mo, out_tc = run_op(api, mi, op, (), {"record_provenance": recprov})
+        mo, out_tc = run_op(api, mi, op, pos, kw, src)
     except LIBERR as e:
+        if outside and not isinstance(e, OpError):
+            ctx.count("either:trim-migrations-outside")
+            return
         bad(f"{op}/raised-on-valid-input", f"raised {type(e).__name__}: {e}")
         return
     ctx.count(f"{op}:{api}")
+    ctx.feature(src.tag(api))
+    ctx.feature(f"call-style:{style}")
     ctx.feature(f"trim:{'shift' if shift > 0 else 'noshift'}:{'cut' if newL < mi.L else 'nocut'}"
                 f":{'sites-lost' if dead else 'sites-kept'}")
-    accepts_as_ts(ctx, bad, op, out_tc)
+    if op != "rtrim" and shift > 0 and any(s[0] == lo for s in mi.sites):
+        ctx.feature("trim:site-exactly-at-leftmost-edge-start")
+    if op != "ltrim" and any(s[0] == hi for s in mi.sites):
+        ctx.feature("trim:site-exactly-at-rightmost-edge-end")
+    if outside:
+        ctx.count("trim:migrations-outside-returned")
+    else:
+        accepts_as_ts(ctx, bad, op, out_tc, mo if api == "tables" else None)
     if mo.L != newL - shift:
         bad(f"{op}/sequence-length", f"sequence_length {mo.L} expected {newL - shift}")
     for t in ("nodes", "individuals", "populations"):
@@ -474,10 +593,11 @@ def check_trim(ctx, mi, rng, op):
 # ------------------------------------------------------------------------------- delete_sites
 
 
-def check_delete_sites(ctx, mi, rng):
+def check_delete_sites(ctx, mi, rng, src=None, valid_input=True):
     ns = len(mi.sites)
-    api = rng.choice(["tables", "ts"])
+    api = rng.choice(["tables", "ts"]) if valid_input else "tables"
     recprov = rng.random() < 0.5
+    src = src or Source.draw(rng)
     r = rng.random()
     if r < 0.15:
         ids, how = [], "empty"
@@ -487,38 +607,65 @@ def check_delete_sites(ctx, mi, rng):
         ids = [rng.randrange(ns) for _ in range(rng.randint(2, 5))]
         ids += [ids[0]]
         how = "duplicates"
+    elif r < 0.65 and ns:
+        # exact boundary ids and a contiguous run (so that range() is a possible container)
+        a = rng.randrange(ns)
+        ids, how = rng.choice([[0], [ns - 1], [0, ns - 1], list(range(a, rng.randint(a, ns - 1) + 1))]), "first-last-run"
     elif ns:
         ids, how = rng.sample(range(ns), rng.randint(1, ns)), "subset"
     else:
         ids, how = [], "empty"
     if r > 0.9:
-        bad_id = rng.choice([ns, -1, ns + 3])
+        # ids outside [0, num_sites) must be refused (as whatever exception the conversion layer produces) and a
+        # refused in-place call must leave the tables alone
+        bad_id = rng.choice([ns, -1, ns + 3, 2 ** 31 - 1, 2 ** 31, -2 ** 31, -2 ** 31 - 1, 2 ** 32, 2 ** 32 + (ns - 1 if ns else 0)])
+        arg = ids + [bad_id]
+        if rng.random() < 0.3 and -2 ** 63 <= bad_id < 2 ** 63:
+            arg = np.array(arg, dtype=np.int64)
         ctx.count("refusals")
+        ctx.feature("site-ids:out-of-range" if abs(bad_id) < 2 ** 31 - 1 else "site-ids:out-of-int32-range")
+        tc = src.tables(mi)
+        before = from_tables(tc)
         try:
-            run_op(api, mi, "delete_sites", (ids + [bad_id],), {})
-        except LIBERR:
+            if api == "tables":
+                tc.delete_sites(arg)
+            else:
+                tc.tree_sequence().delete_sites(arg)
+        except REFUSAL:
+            after = from_tables(tc)
+            for t in RowModel.TABLES:
+                if getattr(after, t) != getattr(before, t):
+                    ctx.violation("delete_sites/refused-but-modified", f"delete_sites({list(arg)}) raised but table {t} "
+                                  f"changed: {getattr(after, t)} was {getattr(before, t)}", {"model": mi.to_json()})
+                    break
             return
-        ctx.violation("delete_sites/out-of-range-accepted", f"{api}.delete_sites({ids + [bad_id]}) with {ns} sites "
+        ctx.violation("delete_sites/out-of-range-accepted", f"{api}.delete_sites({list(arg)}) with {ns} sites "
                       f"did not raise", {"model": mi.to_json()})
         return
     ctx.feature(f"site-ids:{how}")
-    arg = ids
-    if rng.random() < 0.4:
-        arg = np.array(ids, dtype=rng.choice([np.int32, np.int64]))
-    what = f"{api}.delete_sites({ids}, record_provenance={recprov})"
+    arg, form = X.site_ids_arg(rng, ids)
+    ctx.feature(f"site-ids-arg:{form}")
+    pos, kw, style = X.call_form(rng, [("record_provenance", recprov, True)])
+    ctx.feature(f"call-style:{style}")
+    ctx.feature(src.tag(api))
+    what = (f"{api}.delete_sites({ids} as {form}, record_provenance={recprov}) [{src.tag(api)}, call style {style}: "
+            f"{pos} {kw}]")
     detail = {"model": mi.to_json(), "site_ids": ids, "api": api}
 
     def bad(key, msg):
         ctx.violation(key, f"{msg} [{what}]", detail)
 
     try:
-        mo, out_tc = run_op(api, mi, "delete_sites", (arg,), {"record_provenance": recprov})
+        mo, out_tc = run_op(api, mi, "delete_sites", (arg,) + pos, kw, src)
     except LIBERR as e:
         bad("delete_sites/raised-on-valid-input", f"raised {type(e).__name__}: {e}")
         return
     ctx.count(f"delete_sites:{api}")
-    accepts_as_ts(ctx, bad, "delete_sites", out_tc)
+    if valid_input:
+        accepts_as_ts(ctx, bad, "delete_sites", out_tc, mo if api == "tables" else None)
     esites, emuts = delete_sites_ref(mi, set(ids))
+    if any(mu[3] != NULL and mu[3] != k - 1 for k, mu in enumerate(emuts)) and len(esites) < ns:
+        ctx.feature("delete_sites:non-adjacent-parent-remapped")
     for t in ("nodes", "edges", "individuals", "populations", "migrations"):
         same_table(ctx, bad, "delete_sites", t, mo, getattr(mi, t))
     same_table(ctx, bad, "delete_sites", "sites", mo, esites)
@@ -531,19 +678,34 @@ def check_delete_sites(ctx, mi, rng):
 # ------------------------------------------------------------------------------- time cut-offs
 
 
-def cutoff_times(rng, m):
-    ts_ = sorted({n[1] for n in m.nodes} | {mu[4] for mu in m.mutations if mu[4] is not None}
-                 | {g[5] for g in m.migrations})
+def cutoff_times(rng, m, n=5):
+    """n cut-off times: the first three are forced classes (exactly a node / mutation / migration time, preferring a
+    known mutation time; the double just below or above such a time; strictly between two times), the rest is drawn
+    from all classes including below / above everything and +-0.0."""
+    ntimes = sorted({nd[1] for nd in m.nodes})
+    mtimes = sorted({mu[4] for mu in m.mutations if mu[4] is not None})
+    ts_ = sorted(set(ntimes) | set(mtimes) | {g[5] for g in m.migrations})
     if not ts_:
         return [(0.0, "no-times")]
-    out = [(ts_[0] - 1.0, "below-all"), (ts_[-1] + 1.0, "above-all")]
-    at = rng.sample(ts_, min(len(ts_), 3))
-    out += [(t, "at-a-time") for t in at]
+    forced = []
+    at = rng.choice(mtimes) if mtimes and rng.random() < 0.5 else rng.choice(ts_)
+    forced.append((at, "at-a-time"))
+    t = rng.choice(ts_)
+    forced.append(rng.choice([(math.nextafter(t, -math.inf), "just-below-a-time"),
+                              (math.nextafter(t, math.inf), "just-above-a-time")]))
+    if len(ts_) > 1:
+        j = rng.randrange(len(ts_) - 1)
+        forced.append(((ts_[j] + ts_[j + 1]) / 2, "between"))
+    out = [(ts_[0] - 1.0, "below-all"), (ts_[-1] + 1.0, "above-all"), (rng.choice([0.0, -0.0]), "zero")]
+    out += [(t, "at-a-time") for t in rng.sample(ts_, min(len(ts_), 3))]
     for a, b in zip(ts_[:-1], ts_[1:]):
         if rng.random() < 0.5:
             out.append(((a + b) / 2, "between"))
+    for t in rng.sample(ts_, min(len(ts_), 2)):
+        out.append((math.nextafter(t, -math.inf), "just-below-a-time"))
+        out.append((math.nextafter(t, math.inf), "just-above-a-time"))
     rng.shuffle(out)
-    return out
+    return (forced + out)[:n]
 
 
 def split_reference(mi, t):
@@ -559,14 +721,50 @@ def split_reference(mi, t):
 
 
 def new_node_kwargs(rng, m):
+    """Keyword arguments for split_edges / decapitate and the expected columns of the new nodes.  exp["metadata"] is
+    the expected bytes, or ("json", obj) when the node table has a JSON schema (the stored text may be any JSON
+    spelling of obj; an empty byte string reads as {} under the JSON codec)."""
     kw, exp = {}, {"flags": 0, "population": NULL, "metadata": b""}
+    forms = []
     if rng.random() < 0.5:
-        exp["flags"] = kw["flags"] = rng.choice([0, 1, 2, 1 << 20])
+        exp["flags"] = rng.choice([0, 1, 2, 1 << 20, 2 ** 31, 2 ** 32 - 1])
+        kw["flags"], f = X.number_form(rng, exp["flags"], "int")
+        forms.append("flags:" + f)
     if rng.random() < 0.5:
-        exp["population"] = kw["population"] = rng.choice([NULL] + list(range(len(m.populations))))
-    if rng.random() < 0.5:
-        exp["metadata"] = kw["metadata"] = rng.choice([b"", b"new", b"\x00\xff"])
-    return kw, exp
+        exp["population"] = rng.choice([NULL] + list(range(len(m.populations))) + [len(m.populations) - 1])
+        kw["population"], f = X.number_form(rng, exp["population"], "int")
+        forms.append("population:" + f)
+    schema = m.schemas.get("nodes", "")
+    if '"struct"' in schema:
+        # X.STRUCT_NODE_SCHEMA: one little-endian int32 "a", default 9; "the default metadata is an empty dictionary
+        # if a metadata schema is defined"
+        import struct
+        exp["metadata"] = struct.pack("<i", 9)
+        if rng.random() < 0.6:
+            obj = rng.choice([{}, {"a": 0}, {"a": -2 ** 31}, {"a": 2 ** 31 - 1}])
+            kw["metadata"] = obj
+            exp["metadata"] = struct.pack("<i", obj.get("a", 9))
+        forms.append("metadata:struct-schema:" + ("given" if "metadata" in kw else "default"))
+    elif schema:
+        exp["metadata"] = ("json", {})
+        if rng.random() < 0.6:
+            obj = rng.choice([{}, {"id": 5}, {"id": 0, "z": [1, "x", None], "a": {"b": 1.5}}])
+            kw["metadata"] = obj
+            exp["metadata"] = ("json", obj)
+        forms.append("metadata:json-schema:" + ("given" if "metadata" in kw else "default"))
+    elif rng.random() < 0.5:
+        exp["metadata"] = kw["metadata"] = rng.choice([b"", b"new", b"\x00\xff", b"x" * 300])
+    return kw, exp, forms
+
+
+def md_matches(got, want):
+    if isinstance(want, tuple):
+        import json
+        try:
+            return (json.loads(got) if got else {}) == want[1]
+        except ValueError:
+            return False
+    return got == want
 
 
 def check_new_nodes(ctx, bad, op, mi, mo, t, nhit, exp):
@@ -581,42 +779,61 @@ def check_new_nodes(ctx, bad, op, mi, mo, t, nhit, exp):
     if len(new) != nhit:
         bad(f"{op}/new-node-count", f"{len(new)} new nodes, but {nhit} edges intersect time {t}")
         return False
-    wrong = [(n + i, r) for i, r in enumerate(new) if r != want]
+    wrong = [(n + i, r) for i, r in enumerate(new) if r[:4] != want[:4] or not md_matches(r[4], want[4])]
     if wrong:
-        cols = [c for c, a, b in zip(COLS["nodes"], wrong[0][1], want) if a != b]
+        cols = [c for c, a, b in zip(COLS["nodes"], wrong[0][1], want)
+                if (not md_matches(a, b) if c == "metadata" else a != b)]
         bad(f"{op}/new-node-{'+'.join(cols)}", f"new node {wrong[0][0]} is {wrong[0][1]}, expected {want}")
         return False
     return same_rows
 
 
-def check_split_edges(ctx, mi, rng, t, how):
-    kw, exp = new_node_kwargs(rng, mi)
-    what = f"ts.split_edges({t}, {kw})"
-    detail = {"model": mi.to_json(), "time": t, "kwargs": {k: (v.hex() if isinstance(v, bytes) else v) for k, v in kw.items()}}
+def kwjson(kw):
+    return {k: (v.hex() if isinstance(v, bytes) else (v if isinstance(v, dict) else int(v))) for k, v in kw.items()}
+
+
+def check_split_edges(ctx, mi, rng, t, how, src=None):
+    kw, exp, forms = new_node_kwargs(rng, mi)
+    src = src or Source.draw(rng)
+    targ, tform = X.number_form(rng, t, "time")
+    what = f"ts.split_edges({t!r} as {tform}, {kw}) [{src.tag('ts')}]"
+    detail = {"model": mi.to_json(), "time": t, "kwargs": kwjson(kw)}
     op = "split_edges"
 
     def bad(key, msg):
         ctx.violation(key, f"{msg} [{what}]", detail)
 
-    ts = to_tables(mi).tree_sequence()
+    ts = src.ts(mi)
     if mi.migrations:
         ctx.count("refusals")
         try:
-            ts.split_edges(t, **kw)
+            ts.split_edges(targ, **kw)
         except LIBERR:
             return
         bad("split_edges/migrations-accepted", "split_edges on a tree sequence with migrations did not raise")
         return
     try:
-        out = ts.split_edges(t, **kw)
+        out = call(ts, "split_edges", targ, **kw) if rng.random() < 0.8 else call(ts, "split_edges", time=targ, **kw)
     except LIBERR as e:
         bad("split_edges/raised-on-valid-input", f"raised {type(e).__name__}: {e}")
         return
+    for f in forms + ["time:" + tform]:
+        ctx.feature("new-node-arg:" + f)
+    ctx.feature(src.tag("ts"))
     ctx.count("split_edges:ts")
     ctx.feature(f"cutoff:{how}")
     mo = from_tables(out.dump_tables())
     n = mi.num_nodes
     hit, moves = split_reference(mi, t)
+    if len(hit) >= 256:
+        ctx.feature("split:>=256-new-nodes")
+    if moves:
+        ctx.feature("split:mutation-moved")
+        if any(mutation_time(mi, k) == t for k in moves):
+            ctx.feature("split:mutation-exactly-at-cutoff-moved")
+    if any(mi.edges[j][3] == mu[1] and mi.edges[j][0] <= mi.sites[mu[0]][0] < mi.edges[j][1]
+           for k, mu in enumerate(mi.mutations) if k not in moves for j in hit):
+        ctx.feature("split:mutation-below-cutoff-on-split-edge-stays")
     if not check_new_nodes(ctx, bad, op, mi, mo, t, len(hit), exp):
         return
     for tb in ("sites", "individuals", "populations", "migrations"):
@@ -689,29 +906,34 @@ def check_split_edges(ctx, mi, rng, t, how):
     check_top_and_prov(ctx, bad, op, mi, mo, None)
 
 
-def check_decapitate(ctx, mi, rng, t, how):
-    kw, exp = new_node_kwargs(rng, mi)
-    what = f"ts.decapitate({t}, {kw})"
-    detail = {"model": mi.to_json(), "time": t, "kwargs": {k: (v.hex() if isinstance(v, bytes) else v) for k, v in kw.items()}}
+def check_decapitate(ctx, mi, rng, t, how, src=None):
+    kw, exp, forms = new_node_kwargs(rng, mi)
+    src = src or Source.draw(rng)
+    targ, tform = X.number_form(rng, t, "time")
+    what = f"ts.decapitate({t!r} as {tform}, {kw}) [{src.tag('ts')}]"
+    detail = {"model": mi.to_json(), "time": t, "kwargs": kwjson(kw)}
     op = "decapitate"
 
     def bad(key, msg):
         ctx.violation(key, f"{msg} [{what}]", detail)
 
-    ts = to_tables(mi).tree_sequence()
+    ts = src.ts(mi)
     if mi.migrations:
         ctx.count("refusals")
         try:
-            ts.decapitate(t, **kw)
+            ts.decapitate(targ, **kw)
         except LIBERR:
             return
         bad("decapitate/migrations-accepted", "decapitate on a tree sequence with migrations did not raise")
         return
     try:
-        out = ts.decapitate(t, **kw)
+        out = call(ts, "decapitate", targ, **kw) if rng.random() < 0.8 else call(ts, "decapitate", time=targ, **kw)
     except LIBERR as e:
         bad("decapitate/raised-on-valid-input", f"raised {type(e).__name__}: {e}")
         return
+    for f in forms + ["time:" + tform]:
+        ctx.feature("new-node-arg:" + f)
+    ctx.feature(src.tag("ts"))
     ctx.count("decapitate:ts")
     ctx.feature(f"cutoff:{how}")
     mo = from_tables(out.dump_tables())
@@ -764,8 +986,10 @@ def check_decapitate(ctx, mi, rng, t, how):
     check_top_and_prov(ctx, bad, op, mi, mo, None)
 
 
-def check_delete_older(ctx, mi, rng, t, how):
-    what = f"tables.delete_older({t})"
+def check_delete_older(ctx, mi, rng, t, how, src=None, valid_input=True):
+    src = src or Source.draw(rng)
+    targ, tform = X.number_form(rng, t, "time")
+    what = f"tables.delete_older({t!r} as {tform}) [{src.tag('tables')}]"
     detail = {"model": mi.to_json(), "time": t}
     op = "delete_older"
 
@@ -773,17 +997,34 @@ def check_delete_older(ctx, mi, rng, t, how):
         ctx.violation(key, f"{msg} [{what}]", detail)
 
     try:
-        mo, _ = run_op("tables", mi, "delete_older", (t,), {})
+        mo, out_tc = run_op("tables", mi, "delete_older", (), {"time": targ}, src) if rng.random() < 0.2 else \
+            run_op("tables", mi, "delete_older", (targ,), {}, src)
     except LIBERR as e:
         bad("delete_older/raised-on-valid-input", f"raised {type(e).__name__}: {e}")
         return
     ctx.count("delete_older:tables")
     ctx.feature(f"cutoff:{how}")
+    ctx.feature(src.tag("tables"))
+    ctx.feature("cutoff-arg:" + tform)
+    if valid_input:
+        # edges, mutations and migrations are only removed and mutation parents are kept up: still a tree sequence
+        accepts_as_ts(ctx, bad, op, out_tc, mo)
     for tb in ("nodes", "sites", "individuals", "populations"):
         same_table(ctx, bad, op, tb, mo, getattr(mi, tb))
     same_table(ctx, bad, op, "edges", mo, [e for e in mi.edges if not mi.time(e[2]) > t])
     same_table(ctx, bad, op, "migrations", mo, [g for g in mi.migrations if not g[5] >= t])
     dead = {k for k in range(len(mi.mutations)) if mutation_time(mi, k) >= t}
+    if any(mu[3] in dead for k, mu in enumerate(mi.mutations) if k not in dead):
+        ctx.feature("delete_older:kept-mutation-loses-parent")
+    if any(mu[3] != NULL and mu[3] not in dead and any(d < mu[3] for d in dead)
+           for k, mu in enumerate(mi.mutations) if k not in dead):
+        ctx.feature("delete_older:kept-parent-id-shifts")
+    if any(mutation_time(mi, k) == t for k in dead):
+        ctx.feature("delete_older:mutation-exactly-at-cutoff")
+    if any(mi.time(e[2]) == t for e in mi.edges):
+        ctx.feature("delete_older:edge-parent-exactly-at-cutoff")
+    if any(g[5] == t for g in mi.migrations):
+        ctx.feature("delete_older:migration-exactly-at-cutoff")
     same_table(ctx, bad, op, "mutations", mo, delete_mutations_ref(mi, dead))
     if mo.L != mi.L:
         bad("delete_older/sequence-length", f"sequence_length {mo.L} expected {mi.L}")
@@ -799,13 +1040,19 @@ def check_bad_split_args(ctx, mi, rng):
     kind, kw, t = rng.choice([
         ("population-out-of-range", {"population": npop}, 0.5),
         ("population-out-of-range", {"population": -2}, 0.5),
+        ("population-out-of-range", {"population": 2 ** 31 - 1}, 0.5),
+        ("population-out-of-range", {"population": 2 ** 31}, 0.5),
+        ("flags-out-of-range", {"flags": 2 ** 32}, 0.5),
+        ("flags-out-of-range", {"flags": -1}, 0.5),
         ("nonfinite-time", {}, float("nan")),
         ("nonfinite-time", {}, float("inf")),
+        ("nonfinite-time", {}, float("-inf")),
     ])
     ctx.count("refusals")
+    ctx.feature(f"bad-split-arg:{kind}")
     try:
         getattr(ts, op)(t, **kw)
-    except LIBERR:
+    except REFUSAL:
         return
     ctx.violation(f"{op}/{kind}-accepted", f"ts.{op}({t}, {kw}) with {npop} populations did not raise",
                   {"model": mi.to_json()})
@@ -814,16 +1061,29 @@ def check_bad_split_args(ctx, mi, rng):
 # ------------------------------------------------------------------------------- extend_haplotypes
 
 
-def check_extend(ctx, mi, rng):
+def extend_call(rng, ts, max_iter):
+    """ts.extend_haplotypes with max_iter as positional / keyword / omitted (documented default 10) / another numeric
+    type of the same value."""
+    form = rng.choice(["pos", "pos", "kw", "np.int64", "np.int32", "float"] + (["default"] * 3 if max_iter == 10 else []))
+    if form == "default":
+        return call(ts, "extend_haplotypes"), form
+    if form == "kw":
+        return call(ts, "extend_haplotypes", max_iter=max_iter), form
+    v = {"pos": max_iter, "np.int64": np.int64(max_iter), "np.int32": np.int32(max_iter), "float": float(max_iter)}[form]
+    return call(ts, "extend_haplotypes", v), form
+
+
+def check_extend(ctx, mi, rng, src=None, light=False):
     op = "extend_haplotypes"
-    max_iter = rng.choice([1, 2, 10, 10])
-    what = f"ts.extend_haplotypes(max_iter={max_iter})"
+    max_iter = rng.choice([1, 2, 10, 10, 10, 2 ** 31 - 1])
+    src = src or Source.draw(rng)
+    what = f"ts.extend_haplotypes(max_iter={max_iter}) [{src.tag('ts')}]"
     detail = {"model": mi.to_json(), "max_iter": max_iter}
 
     def bad(key, msg):
         ctx.violation(key, f"{msg} [{what}]", detail)
 
-    ts = to_tables(mi).tree_sequence()
+    ts = src.ts(mi)
     unknown = any(mu[4] is None for mu in mi.mutations)
     if mi.migrations or unknown:
         ctx.count("refusals")
@@ -836,17 +1096,21 @@ def check_extend(ctx, mi, rng):
         return
     if rng.random() < 0.05:
         ctx.count("refusals")
+        v = rng.choice([0, -1, -2 ** 31, 2 ** 31])
         try:
-            ts.extend_haplotypes(rng.choice([0, -1]))
-        except LIBERR:
+            ts.extend_haplotypes(v)
+        except REFUSAL:
             return
-        bad("extend_haplotypes/bad-max_iter-accepted", "max_iter <= 0 did not raise")
+        bad("extend_haplotypes/bad-max_iter-accepted", f"max_iter = {v} did not raise")
         return
     try:
-        out = ts.extend_haplotypes(max_iter)
+        out, form = extend_call(rng, ts, max_iter)
     except LIBERR as e:
         bad("extend_haplotypes/raised-on-valid-input", f"raised {type(e).__name__}: {e}")
         return
+    ctx.feature("extend-arg:" + form)
+    ctx.feature(src.tag("ts"))
+    what += f" [max_iter passed as {form}]"
     ctx.count("extend_haplotypes:ts")
     mo = from_tables(out.dump_tables())
     if mo.edges != mi.edges:
@@ -969,6 +1233,138 @@ def witness_extend_detached():
     return m
 
 
+def clipped_variant(rng, m):
+    """The model with every edge / migration clipped to [lo, hi) so that the trims really shift and cut.  In half of
+    the cases lo (hi) is exactly a site position: that site is kept at the new position 0 (dropped, since positions
+    >= the new sequence length go)."""
+    m2 = m.copy()
+    grid = [k * m.L / 16 for k in range(17)]
+    lo, hi = sorted(rng.sample(grid, 2))
+    spos = [s[0] for s in m.sites]
+    r = rng.random()
+    if spos and r < 0.3:
+        lo = rng.choice(spos)
+    elif spos and r < 0.6:
+        hi = rng.choice(spos)
+    elif len(spos) > 1 and r < 0.7:
+        lo, hi = sorted(rng.sample(spos, 2))
+    if not lo < hi:
+        lo, hi = sorted(rng.sample(grid, 2))
+    m2.edges = [(max(l, lo), min(r, hi), p, c, md) for l, r, p, c, md in m.edges if l < hi and r > lo]
+    m2.migrations = [(max(g[0], lo), min(g[1], hi)) + tuple(g[2:]) for g in m.migrations
+                     if g[0] < hi and g[1] > lo]
+    par = mutation_parents(m2)
+    m2.mutations = [mu[:3] + (par[k],) + mu[4:] for k, mu in enumerate(m2.mutations)]
+    return m2
+
+
+def check_reused_object(ctx, m, rng):
+    """Two in-place operations on ONE TableCollection object: the first (checked elsewhere) only prepares the
+    object, its result read back through raw columns is the input model of the second, which is checked in full."""
+    L = m.L
+    ns = len(m.sites)
+    first = rng.choice(["delete_sites", "keep_intervals", "delete_older", "rtrim", "ltrim", "sort+index"])
+    if first == "delete_sites":
+        ids = rng.sample(range(ns), rng.randint(0, ns)) if ns else []
+        prep = lambda tc, ids=ids: tc.delete_sites(ids, record_provenance=False)  # noqa: E731
+    elif first == "keep_intervals":
+        a, b = sorted(rng.sample([k * L / 8 for k in range(9)], 2))
+        prep = lambda tc, a=a, b=b: tc.keep_intervals([(a, b)], simplify=False, record_provenance=False)  # noqa: E731
+    elif first == "delete_older":
+        t0 = rng.choice(sorted({n[1] for n in m.nodes})) if m.nodes else 0.0
+        prep = lambda tc, t0=t0: tc.delete_older(t0)  # noqa: E731
+    elif first in ("rtrim", "ltrim"):
+        if not m.edges:
+            return
+        prep = lambda tc, first=first: getattr(tc, first)(record_provenance=False)  # noqa: E731
+    else:
+        prep = lambda tc: (tc.sort(), tc.build_index())  # noqa: E731
+    src = Source(base=m, prep=prep)
+    try:
+        tc = src.tables(m)
+        m1 = from_tables(tc)
+        tc.tree_sequence()
+    except LIBERR:
+        ctx.count("either:reused-object-first-op-refused")
+        return
+    ctx.count("reused-object")
+    ctx.feature(f"reused-object:first={first}")
+    second = rng.choice(["keep_intervals", "delete_intervals", "delete_sites", "ltrim", "rtrim", "trim",
+                         "delete_older", "split_edges", "extend_haplotypes"])
+    ctx.feature(f"reused-object:second={second}")
+    if second in ("keep_intervals", "delete_intervals"):
+        check_intervals_op(ctx, m1, rng, second, src)
+    elif second == "delete_sites":
+        check_delete_sites(ctx, m1, rng, src)
+    elif second in ("ltrim", "rtrim", "trim"):
+        check_trim(ctx, m1, rng, second, src)
+    elif second == "delete_older":
+        t, how = cutoff_times(rng, m1, 1)[0]
+        check_delete_older(ctx, m1, rng, t, how, src)
+    elif second == "split_edges":
+        t, how = cutoff_times(rng, m1, 1)[0]
+        check_split_edges(ctx, m1, rng, t, how, src)
+    elif not m1.migrations and all(mu[4] is not None for mu in m1.mutations):
+        m1d = m1.copy()
+        if not drop_detached_mutations(m1d):
+            check_extend(ctx, m1, rng, src)
+
+
+def check_unsorted(ctx, m, rng):
+    """delete_older is documented to have 'no specific sorting requirements' and to maintain mutation parents;
+    delete_sites (TableCollection) states none either: rows of edges / sites / mutations / migrations in random
+    order, mutation parents possibly after their children."""
+    mu = X.shuffled_rows(rng, m)
+    ctx.count("unsorted-tables")
+    if any(p > k for k, (_, _, _, p, _, _) in enumerate(mu.mutations)):
+        ctx.feature("unsorted:mutation-parent-after-child")
+    t, how = cutoff_times(rng, mu, 1)[0]
+    check_delete_older(ctx, mu, rng, t, how, FRESH, valid_input=False)
+    check_delete_sites(ctx, mu, rng, FRESH, valid_input=False)
+
+
+def run_big(ctx, rng):
+    global _forced_intervals
+    m = X.build_big(rng)
+    for t in m.tags:
+        ctx.feature(t)
+    ctx.sig(m.signature(), nontrivial=True)
+    ctx.count("big-instances")
+    check_delete_sites(ctx, m, rng)
+    # three of the remaining six operation groups per instance (the reference model is quadratic here)
+    todo = rng.sample(["intervals", "many-intervals", "trim", "split+decapitate", "delete_older", "extend"], 3)
+    if "intervals" in todo:
+        check_intervals_op(ctx, m, rng, rng.choice(["keep_intervals", "delete_intervals"]))
+    if "many-intervals" in todo:
+        # >= 64 intervals: gaps between consecutive sites, ends exactly on site positions
+        sp = [s[0] for s in m.sites]
+        ivs = [(a, b) for a, b in zip(sp[0:-1:2], sp[1::2])]
+        j = rng.randrange(len(ivs) - 70)
+        _forced_intervals = (ivs[j:j + rng.choice([64, 65, 70])], "many-intervals")
+        try:
+            check_intervals_op(ctx, m, rng, rng.choice(["keep_intervals", "delete_intervals"]))
+        finally:
+            _forced_intervals = None
+    if "trim" in todo:
+        m2 = clipped_variant(rng, m)
+        if m2.edges and loads(m2):
+            check_trim(ctx, m2, rng, rng.choice(["ltrim", "rtrim", "trim"]))
+    if "split+decapitate" in todo:
+        t, how = rng.choice([(0.5, "between"), (1.5, "between"), (2.5, "between"), (1.0, "at-a-time")])
+        check_split_edges(ctx, m, rng, t, how)
+        check_decapitate(ctx, m, rng, t, how)
+    if "delete_older" in todo:
+        check_delete_older(ctx, m, rng, rng.choice([1.0, 2.0, 3.0, 0.0]), "at-a-time")
+    if "extend" in todo:
+        m3 = X.few_sites(rng, m, 8)
+        m3.mutations = [mu[:4] + (mutation_time(m3, k),) + mu[5:] for k, mu in enumerate(m3.mutations)]
+        if valid_mutation_times(m3) and loads(m3):
+            check_extend(ctx, m3, rng)
+
+
+_forced_intervals = None
+
+
 def run_case(case, ctx):
     rng = case_rng(case)
     if case["gen"] == "witness-extend-detached":
@@ -977,13 +1373,36 @@ def run_case(case, ctx):
         ctx.count("extend:detached-mutation-inputs")
         check_extend_detached(ctx, m)
         return
+    if case["gen"] == "big":
+        run_big(ctx, rng)
+        return
+    if case["gen"] == "extend-motif":
+        # forced trigger for the extension rule: a chain present on one side of a breakpoint only; samples inside the
+        # chain must stay where they are
+        m = X.build_extend_motif(rng)
+        gen.decorate_sites(rng, m, max_sites=5, known_times=True)
+        if rng.random() < 0.4:
+            gen.decorate_meta(rng, m, tables=("nodes", "sites", "mutations"))
+        for t in gen.topo_tags(m):
+            ctx.feature(t)
+        ctx.sig(m.signature(), nontrivial=True)
+        md = m.copy()
+        if drop_detached_mutations(m):
+            ctx.count("extend:detached-mutation-inputs")
+            check_extend_detached(ctx, md)
+        if valid_mutation_times(m) and loads(m):
+            check_extend(ctx, m, rng)
+            t, how = cutoff_times(rng, m, 1)[0]
+            check_split_edges(ctx, m, rng, t, how)
+            check_intervals_op(ctx, m, rng, rng.choice(["keep_intervals", "delete_intervals"]))
+        return
     if case["gen"] == "arg-extend":
         m = build_arg(rng)
         for t in gen.topo_tags(m):
             ctx.feature(t)
         ctx.sig(m.signature(), nontrivial=len(m.edges) > 0)
         check_extend(ctx, m, rng)
-        for t, how in cutoff_times(rng, m)[:2]:
+        for t, how in cutoff_times(rng, m, 2):
             check_split_edges(ctx, m, rng, t, how)
             check_decapitate(ctx, m, rng, t, how)
         check_intervals_op(ctx, m, rng, "keep_intervals")
@@ -1008,23 +1427,21 @@ def run_case(case, ctx):
         check_trim(ctx, m, rng, op)
     # a second, trimmed-down variant so that the trims really shift / cut
     if m.edges and rng.random() < 0.7:
-        m2 = m.copy()
-        lo, hi = sorted(rng.sample([k * m.L / 16 for k in range(17)], 2))
-        m2.edges = [(max(l, lo), min(r, hi), p, c, md) for l, r, p, c, md in m.edges if l < hi and r > lo]
-        m2.migrations = [(max(g[0], lo), min(g[1], hi)) + tuple(g[2:]) for g in m.migrations
-                         if g[0] < hi and g[1] > lo]
-        par = mutation_parents(m2)
-        m2.mutations = [mu[:3] + (par[k],) + mu[4:] for k, mu in enumerate(m2.mutations)]
+        m2 = clipped_variant(rng, m)
         if m2.edges and valid_mutation_times(m2) and loads(m2):
             for op in ("ltrim", "rtrim", "trim"):
                 check_trim(ctx, m2, rng, op)
     for _ in range(4 if thorough else 2):
         check_delete_sites(ctx, m, rng)
-    for t, how in cutoff_times(rng, m)[:(12 if thorough else 5)]:
+    for t, how in cutoff_times(rng, m, 12 if thorough else 5):
         check_split_edges(ctx, m, rng, t, how)
         check_decapitate(ctx, m, rng, t, how)
         check_delete_older(ctx, m, rng, t, how)
     check_bad_split_args(ctx, m, rng)
+    # audit additions: one object through two in-place operations; tables in arbitrary row order
+    for _ in range(2 if thorough else 1):
+        check_reused_object(ctx, m, rng)
+    check_unsorted(ctx, m, rng)
     # extend_haplotypes: refusal classes on the raw input, then a variant it accepts
     if m.migrations or any(mu[4] is None for mu in m.mutations):
         check_extend(ctx, m, rng)
@@ -1047,7 +1464,7 @@ def check_extend_detached(ctx, mi):
     a changed genotype is attributed to this mechanism only when the site carries such a detached mutation."""
     if not (valid_mutation_times(mi) and loads(mi)):
         return
-    ts = to_ts(mi)
+    ts = to_tables(mi).tree_sequence()
     try:
         out = ts.extend_haplotypes()
     except tskit.LibraryError:
